@@ -212,9 +212,10 @@ PROPS['C17'] = dict(
          'hash(ab,v) = hash(b, hash(a,v)), NUL-terminated form = length form on the prefix before the first NUL, mixed feeding. Messages live in exact-size heap blocks (ASan). non-trivial = message >= 2 bytes containing '
          'a byte outside 0x30-0x39 and a non-zero initial value; distinct = hash of (kind, width, order, polynomial, initial value, message)',
     assumptions=COMMON_ASSUME + ['reference: bitwise shift/xor division and bit-loop reflection in exec/C17.cc, independent of liba helpers'],
-    units=lambda tier, seed: [Unit('crc_hash', 'exec/C17.cc', ['crc.c', 'hash.c'], tape_len=360)],
-    plan={'quick': dict(rc_procs=10, rc_cases=15000, fuzz_procs=6, fuzz_secs=20),
-          'thorough': dict(rc_procs=8, rc_cases=200000, fuzz_procs=8, fuzz_secs=240)},
+    units=lambda tier, seed: [Unit('crc_hash', 'exec/C17.cc', ['crc.c', 'hash.c'], tape_len=360, enum=True)],
+    plan={'quick': dict(rc_procs=4, rc_cases=30000, fuzz_procs=3, fuzz_secs=20, enum_shards=11, enum_tier=0),
+          'thorough': dict(rc_procs=8, rc_cases=200000, fuzz_procs=8, fuzz_secs=240, enum_shards=11, enum_tier=1)},
+    has_enum=True,
     technique='property-based differential testing against a bit-by-bit reference plus metamorphic relations (reflection, concatenation); rapidcheck tapes + libFuzzer under ASan',
     level_text='generated polynomials, initial values, messages and split points against the defining bitwise division; sampling, not proof',
     level_note='trusts the bitwise reference in exec/C17.cc; messages <= 300 bytes',
